@@ -582,9 +582,9 @@ fn main() {
         "C14",
         "exploration",
         "datasets of 1..6 (thorough 10) quads over small term pools (subjects repeat, so Turtle groups and object lists occur): subjects http/https/urn/mailto IRIs, blank nodes, quoted triples; \
-         objects literals (62 %), http and non-http IRIs, blank nodes, quoted triples flat and nested once; 40 % of the quads in one of 1-2 named graphs. Literals are arbitrary Unicode drawn from a weighted alphabet \
-         (\" \\ LF CR TAB space . ; , < > @ ^ # { } |, C0 controls, U+0085/U+2028/U+2029, combining marks, astral characters, any scalar) in five shapes (mixture, one special in filler, boundary list incl. the empty string, \
-         forced ending in \\ \" space or dot, escape look-alikes) and made unmistakable by construction (a non-letter in front of text that starts like scheme:, _: or <<). \
+         objects literals (56 %), http and non-http IRIs, blank nodes, quoted triples flat and nested once; 40 % of the quads in one of 1-2 named graphs. Literals are arbitrary Unicode drawn from a weighted alphabet \
+         (\" \\ LF CR TAB space . ; , < > @ ^ # { } |, C0 controls, U+0085/U+2028/U+2029, combining marks, astral characters, any scalar) in six shapes (mixture, one special in filler, boundary list incl. the empty string, \
+         forced ending in \\ \" space or dot, escape look-alikes, wrapped in <> \"\" {||} '') and made unmistakable by construction (a non-letter in front of text that starts like scheme:, _: or <<). \
          Each dataset is loaded through add_triple_parts / Dictionary::encode+add_quad / encode_term_star, exported by each of the three writers and re-imported into an empty database; \
          expected = the dataset's own lexical quads (all graphs for N-Quads, default graph otherwise), got = every quad of the re-imported database. Failures are attributed by isolating round trips. \
          Non-trivial = at least one literal with a delimiter/escape character, or a quoted triple, or a non-http IRI object; distinct = distinct dataset. inner = export/import round trips (+ libFuzzer executions). \
